@@ -89,11 +89,80 @@ func sliceAssumptions(ass []Assump, seeds ...*Term) []*Term {
 }
 
 func (ob *Obligation) Script(getValues []*Term) string {
+	return ob.ScriptWith(nil, getValues)
+}
+
+// ScriptWith adds extra hypotheses (one case of a path-condition split).
+func (ob *Obligation) ScriptWith(extra []*Term, getValues []*Term) string {
 	ass := ob.exec.assumptions[:ob.NAss]
 	neg := Not(ob.Goal)
-	terms := sliceAssumptions(ass, ob.PC, neg)
+	seeds := append([]*Term{ob.PC, neg}, extra...)
+	terms := sliceAssumptions(ass, seeds...)
 	terms = append(terms, ob.PC, neg)
+	terms = append(terms, extra...)
 	return Script(terms, getValues, "")
+}
+
+// SplitPC expands the path condition of the obligation, through the definitions of the named
+// path-condition symbols, into at most max disjuncts (each a conjunction). The disjunction of the
+// cases is implied by the path condition, so proving the goal in every case proves it.
+func (ob *Obligation) SplitPC(max int) [][]*Term {
+	defs := map[string]*Term{}
+	for _, a := range ob.exec.assumptions[:ob.NAss] {
+		if a.Def != "" && strings.HasPrefix(a.Def, "pc!") && a.T.Op == "=" && len(a.T.Args) == 2 {
+			defs[a.Def] = a.T.Args[1]
+		}
+	}
+	type conj []*Term
+	cases := []conj{{ob.PC}}
+	// repeatedly expand the first expandable atom of some case (breadth first) while the case count stays <= max
+	for round := 0; round < 64; round++ {
+		changed := false
+		var next []conj
+		for ci, c := range cases {
+			expanded := false
+			for i, t := range c {
+				var alts []conj
+				switch {
+				case t.Op == "const" && defs[t.Name] != nil:
+					alts = []conj{{defs[t.Name]}}
+				case t.Op == "or":
+					for _, a := range t.Args {
+						alts = append(alts, conj{a})
+					}
+				case t.Op == "and":
+					alts = []conj{conj(t.Args)}
+				}
+				if alts == nil {
+					continue
+				}
+				if len(cases)-1+len(alts)+len(next)-ci > max && len(alts) > 1 {
+					continue
+				}
+				for _, alt := range alts {
+					nc := append(conj{}, c[:i]...)
+					nc = append(nc, alt...)
+					nc = append(nc, c[i+1:]...)
+					next = append(next, nc)
+				}
+				expanded = true
+				changed = true
+				break
+			}
+			if !expanded {
+				next = append(next, c)
+			}
+		}
+		cases = next
+		if !changed || len(cases) > max {
+			break
+		}
+	}
+	out := make([][]*Term, len(cases))
+	for i, c := range cases {
+		out[i] = c
+	}
+	return out
 }
 
 func runSolver(ctx context.Context, sp solverSpec, file string, timeoutS int) (status, raw string, secs float64) {
